@@ -11,7 +11,7 @@ NOTE = ('Trusted base: clang 14 Sema + CFG builder as driven by engine/tbxfacts.
 CLAIMS = {
  'C01': ('A1 lockset/thread-role race freedom of the cross-thread queue and wake-up token, A3 swap+acknowledge atomicity, A4 no-lost-wake-up '
          'shape of producers and loop start, drain-on-exit reachability in both back-ends and destructors, copy-before-invoke / one-pop-per-invoke, '
-         'FIFO container discipline and cancel routing by id parity, task invocation only on loop-role functions, role closure over every loop-written field with run() handing over to runNext() only behind the role test, running batch always finished (must-fact), wake-up token reset with the channel', '§4 C01, §10.3 D25',
+         'FIFO container discipline and cancel routing by id parity, task invocation only on loop-role functions, role closure over every loop-written field with run() handing over to runNext() only behind the role test, running batch always finished (must-fact), wake-up token reset with the channel and with every read that empties the eventfd', '§4 C01, §10.3 D25',
          'lockset + CFG path rules over clang AST/CFG'),
  'C03': ('A7 snapshot-dispatch re-validation in both back-ends, record re-resolution per ready descriptor, A8 no throwing look-up in the dispatch '
          'loops, no iterate-while-mutate over fd_events, one-shot-before-callback, epoll/select sibling agreement, interest-set table (counter stepped under the matching events_ bit, epoll mask / select sets requested iff counter > 0, kernel-bit to tbox-bit translation incl. HUP->read, epoll_ctl ADD/MOD/DEL by old/new mask)', '§4 C03, §10.7',
@@ -35,10 +35,10 @@ CLAIMS = {
 CLAIMS.update({
  'C02': ('A13 heap-protocol typestate of timer_min_heap_ over every function touching it (HEAP at exits/user callbacks/front reads, one comparator ordering by '
          'deadline), not-before-deadline guard, fresh-interval / re-arm-by-interval data dependence, callback copied before recycling and no use after it, '
-         'synchronous token free + deferred record free, one-shot ordering, TimerEventImpl enabled<=>registered, deadline base is a pure fresh clock reading, synchronous disable() before any deferred TimerEvent delete', '§4 C02',
+         'synchronous token free + deferred record free, one-shot ordering, TimerEventImpl enabled<=>registered, deadline base is a pure fresh clock reading, synchronous disable() before any deferred TimerEvent delete, every path of initialize()/destructor disables an enabled timer', '§4 C02',
          'typestate dataflow (heap protocol) + CFG path rules over clang AST/CFG'),
  'C06': ('write-arming invariant (running and queued => write event armed) decided at every state-changing site, remainder arithmetic shape of send(), '
-         'completion only when drained, receive-side commit/spill shape, destruction only through deferred tasks at the in-callback sites; plus the util::Buffer window arithmetic (C07 rules run as C06.B1-B4, the send/receive queues are Buffers)', '§4 C06, §10.6',
+         'completion reported only where the queue is known empty (every reporting site, deferred closures included), receive-side commit/spill shape and commit-then-hand-over on every path, destruction only through deferred tasks at the in-callback sites; plus the util::Buffer window arithmetic (C07 rules run as C06.B1-B4, the send/receive queues are Buffers)', '§4 C06, §10.6',
          'typestate-style site rules + ownership (deferred delete) rules over clang AST/CFG'),
  'C12': ('A8 no exception escapes the receive path (call-graph scan with try map, presence proofs by reaching definitions), fail verdicts only on a complete '
          'line and cursor-update shapes, no dispatch after a close-marked request, single commit per request by construction, in-order flush shape, boundary agreement of every comparison with close_index, no read-side shutdown while responses are owed (teardown chain re-derived each run), no unbounded stack allocation on the receive path, per-request parser state re-initialised at each request, any transport shutdown only in the send-complete callback, receive threshold of the resumable parser folds to 0 or 1, reserve/resize with an input-derived count counted as a thrower', '§4 C12',
@@ -59,10 +59,10 @@ CLAIMS.update({
 CLAIMS.update({
  'C08': ('generation counter only grows, token/range/id guards agree over at/update/free and free-list threading, pooled types never new/delete (whole program) with '
          'one placement-new / one destructor per alloc/free, Fd reference-count pairing and close marking, no deferred task captures a still-registered managed pointer '
-         '(whole program), foreach hands callbacks the live cell\'s pointer', '§4 C08', 'type rules + guard/pairing path rules over clang AST/CFG (templates via explicit instantiation TU)'),
+         '(whole program), foreach hands callbacks the live cell\'s pointer, Cabinet::free never moves or releases the cell array, ObjectPool::alloc reaches no destructor', '§4 C08', 'type rules + guard/pairing path rules over clang AST/CFG (templates via explicit instantiation TU)'),
  'C17': ('lifecycle propagation matrix over every composite and child field (delete/reset/install/ready/stop-pause-resume), base-hook must-call on every override, '
          'notifications only as cancellable deferred tasks cancelled by stop/reset/destructor, base lifecycle gates and single onFinal, held-back child results in '
-         'serial composites, reset-before-rerun, replay fidelity of held-back results (closure re-enters the handler with its own unmodified parameters, nothing applied before the held-back test), every run armed with the configured time-out', '§4 C17', 'sibling-agreement matrix + must-call/path rules over clang AST/CFG'),
+         'serial composites, stop propagation not filtered by a running-test, leaf resource matrix (events an action arms are disarmed on stop/reset/pause), reset-before-rerun, replay fidelity of held-back results (closure re-enters the handler with its own unmodified parameters, nothing applied before the held-back test), every run armed with the configured time-out', '§4 C17', 'sibling-agreement matrix + must-call/path rules over clang AST/CFG'),
  'C18': ('waiters re-register before every wait, wake-up conditional only on the waiter queue, cancellation test between wait and resource, broadcast/condition '
          'post shapes, scheduler cleanup/switch/schedule shapes, every routine-destroying site resumes the joiner, cancel exit withdraws the waiter token and passes on a wake-up addressed to it, success exit only through a re-test of the resource after wait(), a "post already pending" flag believed only where the posted function clears it', '§4 C18', 'CFG path rules over clang AST/CFG (templates via explicit instantiation TU)'),
  'C19': ('constant tables equal tables generated from the standards\' formulae (Base64, CRC-16/32, AES S-box/inverse/Rcon, MD5 constants/shifts/order/state/padding, '
